@@ -94,13 +94,13 @@ def run_check(prop: str, tier: str, verif_seed: int, runs: int | None, shrink_en
         elif prop == "C11":
             from . import enum_c11
 
-            extra = enum_c11.run(pools, tier, verif_seed, deadline, known)
+            extra = enum_c11.run(pools, tier, verif_seed, hard, known)
         if prop == "C10" and go("grid"):
             extra = c10_grid(pools, verif_seed, tier, known)
         if prop in ("C09", "C12") and go("grid"):
             from . import enum_grid
 
-            extra = enum_grid.run(pools, prop, tier, verif_seed, deadline, known)
+            extra = enum_grid.run(pools, prop, tier, verif_seed, hard, known)
         if prop == "C03":
             from . import gen_sched
 
